@@ -5,6 +5,7 @@ import concurrent.futures as cf
 import json, os, re, shutil, subprocess, sys, tempfile
 
 HERE = os.path.dirname(os.path.dirname(os.path.abspath(__file__)))
+SNAP = HERE  # replaced in main() by a snapshot of the checker, so that edits made while the matrix runs do not leak into it
 TWINS = os.path.join(HERE, "twins")
 PROPS = [c["property_id"] for c in json.load(open(os.path.join(HERE, "MANIFEST.json")))["checks"]]
 
@@ -18,9 +19,9 @@ def run_one(name: str):
         r = subprocess.run(["patch", "-p1", "-s", "--no-backup-if-mismatch", "-i", os.path.join(d, "patch.diff")], cwd=tmp, capture_output=True, text=True)
         if r.returncode != 0:
             return name, [("-", -1, "patch does not apply")]
-        env = dict(os.environ, PYTHONPATH=HERE)
+        env = dict(os.environ, PYTHONPATH=SNAP)
         for p in PROPS:
-            q = subprocess.run(["/venv/bin/python", "-m", "sa.run", "--property", p, "--repo", tmp, "--no-write"], cwd=HERE, capture_output=True, text=True, env=env)
+            q = subprocess.run(["/venv/bin/python", "-m", "sa.run", "--property", p, "--repo", tmp, "--no-write"], cwd=SNAP, capture_output=True, text=True, env=env)
             if q.returncode != 0:
                 first = next((l.strip()[:220] for l in q.stdout.splitlines() if l.strip().startswith(("violation:", "ANALYSIS-ERROR"))), "")
                 out.append((p, q.returncode, first))
@@ -29,7 +30,20 @@ def run_one(name: str):
         shutil.rmtree(tmp, ignore_errors=True)
 
 
+def _snapshot() -> str:
+    """Copy of the checker (sa/, properties.jsonl, known_findings.json, MANIFEST.json) under a temp dir outside /verif."""
+    d = tempfile.mkdtemp(prefix="sasnap_")
+    shutil.copytree(os.path.join(HERE, "sa"), os.path.join(d, "sa"), ignore=shutil.ignore_patterns("__pycache__"))
+    for f in ("properties.jsonl", "known_findings.json", "MANIFEST.json"):
+        shutil.copy(os.path.join(HERE, f), os.path.join(d, f))
+    return d
+
+
 def main():
+    global SNAP
+    SNAP = _snapshot()
+    import atexit
+    atexit.register(shutil.rmtree, SNAP, True)
     names = sorted(n for n in os.listdir(TWINS) if os.path.isdir(os.path.join(TWINS, n)))
     if len(sys.argv) > 1:
         names = [n for n in names if n in sys.argv[1:]]
